@@ -28,10 +28,19 @@ pub trait Suite: RandomizedCiphersuite {
     const IS_TAPROOT: bool = false;
     /// scalar encoding is little-endian
     const LE: bool = false;
+    const IS_SPY: bool = false;
+    /// hash queries made since the last call (instrumented suites only): [tag, preimage, answer]
+    fn take_queries() -> Vec<Value> {
+        vec![]
+    }
 
     /// An independent verifier for this suite's single-signer scheme, if one is
     /// available offline (ed25519-dalek verify_strict, libsecp256k1 BIP-340).
     fn ext_verify(_vk: &[u8], _msg: &[u8], _sig: &[u8]) -> Option<bool> {
+        None
+    }
+    /// An independent signer: (verifying key bytes, signature bytes) in this suite's wire form.
+    fn ext_sign(_seed32: &[u8], _msg: &[u8]) -> Option<(Vec<u8>, Vec<u8>)> {
         None
     }
 
@@ -83,6 +92,12 @@ impl Suite for Toy {
             None => json!({"raw": e.0}),
         }
     }
+    fn take_queries() -> Vec<Value> {
+        toy::oracle_take_log()
+            .into_iter()
+            .map(|q| json!([q.tag, crate::interp::bytes_json(&q.pre), q.ans, q.hit]))
+            .collect()
+    }
     fn scalar_lit(v: &Value) -> Option<TS> {
         let q = toy::params().q as i64;
         let n = v.as_i64()?;
@@ -102,6 +117,13 @@ impl Suite for frost_ed25519::Ed25519Sha512 {
         };
         let sig = ed25519_dalek::Signature::from_bytes(&sig);
         Some(vk.verify_strict(msg, &sig).is_ok())
+    }
+    fn ext_sign(seed32: &[u8], msg: &[u8]) -> Option<(Vec<u8>, Vec<u8>)> {
+        use ed25519_dalek::Signer;
+        let seed: [u8; 32] = seed32.try_into().ok()?;
+        let sk = ed25519_dalek::SigningKey::from_bytes(&seed);
+        let sig = sk.sign(msg);
+        Some((sk.verifying_key().to_bytes().to_vec(), sig.to_bytes().to_vec()))
     }
 }
 impl Suite for frost_ed448::Ed448Shake256 {
@@ -123,6 +145,15 @@ impl Suite for frost_secp256k1_tr::Secp256K1Sha256TR {
     const IS_TAPROOT: bool = true;
     fn ext_verify(vk: &[u8], msg: &[u8], sig: &[u8]) -> Option<bool> {
         bip340_verify(vk, msg, sig)
+    }
+    fn ext_sign(seed32: &[u8], msg: &[u8]) -> Option<(Vec<u8>, Vec<u8>)> {
+        let secp = secp256k1::Secp256k1::new();
+        let kp = secp256k1::Keypair::from_seckey_slice(&secp, seed32).ok()?;
+        let sig = secp.sign_schnorr_no_aux_rand(msg, &kp);
+        let (x, _) = kp.x_only_public_key();
+        let mut vk = vec![2u8];
+        vk.extend_from_slice(&x.serialize());
+        Some((vk, sig.as_ref().to_vec()))
     }
 }
 
@@ -157,6 +188,11 @@ macro_rules! with_suite {
             "ristretto255" => $f::<frost_ristretto255::Ristretto255Sha512>($($arg),*),
             "secp256k1" => $f::<frost_secp256k1::Secp256K1Sha256>($($arg),*),
             "secp256k1-tr" => $f::<frost_secp256k1_tr::Secp256K1Sha256TR>($($arg),*),
+            "spy-ed25519" => $f::<$crate::spy::Spy<frost_ed25519::Ed25519Sha512>>($($arg),*),
+            "spy-ed448" => $f::<$crate::spy::Spy<frost_ed448::Ed448Shake256>>($($arg),*),
+            "spy-p256" => $f::<$crate::spy::Spy<frost_p256::P256Sha256>>($($arg),*),
+            "spy-ristretto255" => $f::<$crate::spy::Spy<frost_ristretto255::Ristretto255Sha512>>($($arg),*),
+            "spy-secp256k1" => $f::<$crate::spy::Spy<frost_secp256k1::Secp256K1Sha256>>($($arg),*),
             other => panic!("unknown suite {other}"),
         }
     };
